@@ -143,7 +143,8 @@ def masked(data, tool):
 def shipped_files():
     rp = build.REPO
     return (sorted(glob.glob(rp + '/data/*/*.exp')), sorted(glob.glob(rp + '/test/unitary_schemas/*.exp')),
-            sorted(glob.glob(rp + '/test/buggy/*.exp')))
+            sorted(glob.glob(rp + '/test/buggy/*.exp')),
+            sorted(glob.glob(rp + '/src/*/test/*.exp') + glob.glob(rp + '/test/misc/*.exp')))
 
 
 def outcome_class(c):
@@ -164,14 +165,15 @@ def main(chk):
     cases = []          # deterministic part first, randomized after (order does not matter for verdicts)
 
     # (1) shipped schemas: every tier, every file, every tool
-    big, unit, buggy = shipped_files()
-    for grp, fs in (('shipped application-protocol schema', big), ('shipped unit schema', unit), ('shipped buggy schema', buggy)):
+    big, unit, buggy, tooltests = shipped_files()
+    for grp, fs in (('shipped application-protocol schema', big), ('shipped unit schema', unit), ('shipped buggy schema', buggy),
+                    ('shipped tool test schema', tooltests)):
         for f in fs:
             stem = os.path.splitext(os.path.basename(f))[0]
             for tool in R.TOOLS:
                 cases.append(R.Case(None, tool, 'unchanged input', '%s %s' % (grp, stem), path=f, note=grp))
     n_shipped = len(cases)
-    chk.count('shipped_files', len(big) + len(unit) + len(buggy))
+    chk.count('shipped_files', len(big) + len(unit) + len(buggy) + len(tooltests))
 
     # (4) pathological shapes + fixed probes of open findings
     shapes = S.shapes(chk.tier, warn)
